@@ -36,29 +36,33 @@ Qed.
 
 (** * One layer of [render1] *)
 Section RenderUnfold.
+  Variable acc : N -> N -> str.
   Variable o : opts.
   Lemma render1_group sl body :
-    render1 o sl (KGroup body) =
-    let c := render o sl body in
+    render1 acc o sl (KGroup body) =
+    let c := render acc o sl body in
     if o_kbg o && Nat.leb (o_kbg_minlen o) (length c) then [123%N] ++ c ++ [125%N] else c.
   Proof. reflexivity. Qed.
-  Lemma render1_transparent sl body : render1 o sl (KTransparent body) = render o sl body.
+  Lemma render1_transparent sl body : render1 acc o sl (KTransparent body) = render acc o sl body.
   Proof. reflexivity. Qed.
-  Lemma render1_envbody sl body : render1 o sl (KEnvBody body) = render o sl body.
+  Lemma render1_envbody sl body : render1 acc o sl (KEnvBody body) = render acc o sl body.
   Proof. reflexivity. Qed.
   Lemma render1_envwrap sl pre post body :
-    render1 o sl (KEnvWrap pre post body) = pre ++ render o sl body ++ post.
+    render1 acc o sl (KEnvWrap pre post body) = pre ++ render acc o sl body ++ post.
+  Proof. reflexivity. Qed.
+  Lemma render1_accent sl comb arg :
+    render1 acc o sl (KAccent comb arg) = flat_map (fun ch => acc ch comb) (py_strip (render1 acc o sl arg)).
   Proof. reflexivity. Qed.
   Lemma render1_math sl d dl dr verb body :
-    render1 o sl (KMath d dl dr verb body) =
+    render1 acc o sl (KMath d dl dr verb body) =
     match o_math o with
     | MMRemove => []
     | MMVerbatim => if d then [10%N] ++ verb ++ [10%N] else verb
     | MMWithDelims =>
-        let c := py_strip (render o (push_eq sl) body) in
+        let c := py_strip (render acc o (push_eq sl) body) in
         if d then dl ++ [10%N] ++ c ++ [10%N] ++ dr else dl ++ c ++ dr
     | MMText =>
-        let c := py_strip (render o (push_eq sl) body) in
+        let c := py_strip (render acc o (push_eq sl) body) in
         if d then indent_block c else c
     end.
   Proof. reflexivity. Qed.
@@ -84,6 +88,7 @@ Section Main.
   Notation nt := (node_text src lt cx o).
   Notation abs := (abstract src lt).
   Notation absl := (abstract_items src lt).
+  Notation acc := (nfc_accent lt).
 
   Definition abs_body (b : option node) : option (list core) :=
     match b with Some (NList _ _ items) => absl items | _ => None end.
@@ -95,9 +100,17 @@ Section Main.
   Lemma abstract_macro p e m nm post a :
     abs (NMacro p e m nm post a) =
     match a with
-    | Some (sp, [Some (NGroup _ _ _ _ _ b)]) =>
-        if list_eqb str_eqb sp [[123%N]] && transparent_macro lt nm
-        then option_map KTransparent (abs_body b) else None
+    | Some (sp, [Some x]) =>
+        if list_eqb str_eqb sp [[123%N]] then
+          match accent_macro lt nm with
+          | Some comb => option_map (KAccent comb) (abs x)
+          | None =>
+              match x with
+              | NGroup _ _ _ _ _ b => if transparent_macro lt nm then option_map KTransparent (abs_body b) else None
+              | _ => None
+              end
+          end
+        else None
     | Some (sp, [None]) =>
         if list_eqb str_eqb sp [[91%N]] && item_macro lt nm then Some (KSymbol item_text post) else None
     | _ => if no_arg_nodes a then option_map (fun r => KSymbol r post) (symbol_repl lt nm) else None
@@ -121,7 +134,9 @@ Section Main.
         a = Some ([[123%N]], [Some (NGroup p1 e1 m1 dl dr (Some (NList p2 e2 items)))])
         /\ transparent_macro lt nm = true /\ absl items = Some body /\ k = KTransparent body)
     \/ (no_arg_nodes a = true /\ exists r, symbol_repl lt nm = Some r /\ k = KSymbol r post)
-    \/ (a = Some ([[91%N]], [None]) /\ item_macro lt nm = true /\ k = KSymbol item_text post).
+    \/ (a = Some ([[91%N]], [None]) /\ item_macro lt nm = true /\ k = KSymbol item_text post)
+    \/ (exists x comb ka, a = Some ([[123%N]], [Some x]) /\ accent_macro lt nm = Some comb
+                          /\ abs x = Some ka /\ k = KAccent comb ka).
   Proof.
     rewrite abstract_macro. intros H.
     assert (SYM : (if no_arg_nodes a then option_map (fun r => KSymbol r post) (symbol_repl lt nm) else None)
@@ -130,16 +145,19 @@ Section Main.
     { destruct (no_arg_nodes a); [|discriminate]. destruct (symbol_repl lt nm) as [r|]; [|discriminate].
       cbn [option_map]. intros E. injection E as <-. eauto. }
     destruct a as [[sp [|[x|] l]]|]; try (right; left; apply SYM; exact H).
-    2:{ destruct l as [|y l]; [|right; left; apply SYM; exact H]. right; right.
+    2:{ destruct l as [|y l]; [|right; left; apply SYM; exact H]. right; right; left.
         destruct (list_eqb str_eqb sp [[91%N]]) eqn:Esp; [|discriminate H].
         destruct (item_macro lt nm) eqn:Eit; [|discriminate H]. cbn [andb] in H.
         apply list_eqb_bracket in Esp. subst sp. injection H as <-. auto. }
-    destruct l as [|y l]; [|right; left; apply SYM; destruct x; exact H].
-    destruct x; try (right; left; apply SYM; exact H).
-    left.
+    destruct l as [|y l]; [|right; left; apply SYM; exact H].
     destruct (list_eqb str_eqb sp [[123%N]]) eqn:Esp; [|discriminate H].
+    apply list_eqb_brace in Esp. subst sp.
+    destruct (accent_macro lt nm) as [comb|] eqn:Eacc.
+    { right; right; right. destruct (abs x) as [ka|] eqn:Ex; [|discriminate H]. injection H as <-.
+      repeat eexists; eauto. }
+    destruct x; try discriminate H.
+    left.
     destruct (transparent_macro lt nm) eqn:Etr; [|discriminate H].
-    cbn [andb] in H. apply list_eqb_brace in Esp. subst sp.
     destruct body as [[]|]; cbn [abs_body option_map] in H; try discriminate H.
     destruct (absl items) as [bd|] eqn:Eb; [|discriminate H]. injection H as <-.
     repeat eexists; eauto.
@@ -165,9 +183,10 @@ Section Main.
     - rewrite abstract_group in H. destruct (_ && _); [|discriminate]. destruct (abs_body body); [|discriminate].
       injection H as <-. reflexivity.
     - apply abstract_macro_inv in H as [(p1 & e1 & m1 & dl & dr & p2 & e2 & items & bd & -> & _ & _ & ->)
-                                        |[(Ha & r & _ & ->)|(-> & _ & ->)]].
+                                        |[(Ha & r & _ & ->)|[(-> & _ & ->)|(x & comb & ka & -> & _ & _ & ->)]]].
       + reflexivity.
       + cbn [is_bare_macro bare_post]. now rewrite (no_arg_nodes_bare _ Ha).
+      + reflexivity.
       + reflexivity.
     - rewrite abstract_env in H. destruct (transparent_env lt name).
       + destruct (abs_body body); [|discriminate]. injection H as <-. reflexivity.
@@ -188,7 +207,8 @@ Section Main.
     - rewrite abstract_group in H. destruct (_ && _); [|discriminate]. destruct (abs_body body); [|discriminate].
       injection H as <-. reflexivity.
     - apply abstract_macro_inv in H as [(p1 & e1 & m1 & dl & dr & p2 & e2 & items & bd & -> & _ & _ & ->)
-                                        |[(Ha & r & _ & ->)|(-> & _ & ->)]]; reflexivity.
+                                        |[(Ha & r & _ & ->)|[(-> & _ & ->)|(x & comb & ka & -> & _ & _ & ->)]]];
+        reflexivity.
     - rewrite abstract_env in H. destruct (transparent_env lt name).
       + destruct (abs_body body); [|discriminate]. injection H as <-. reflexivity.
       + destruct (wrap_env lt name) as [[pre post]|]; [|discriminate].
@@ -202,11 +222,11 @@ Section Main.
 
   (** * The model equals the specification *)
   Definition Pn (n : node) : Prop :=
-    forall k, abs n = Some k -> forall sl st, nt sl st n = (render1 o sl k, st).
+    forall k, abs n = Some k -> forall sl st, nt sl st n = (render1 acc o sl k, st).
   Definition Ql (items : list (option node)) : Prop :=
     forall ks, absl items = Some ks -> forall sl st prev pk,
       is_bare_macro prev = bare_post pk ->
-      items_text src lt cx o sl st prev items = (render_from o sl pk ks, st).
+      items_text src lt cx o sl st prev items = (render_from acc o sl pk ks, st).
   Definition P2 (n : node) : Prop :=
     Pn n /\ match n with NGroup _ _ _ _ _ (Some (NList _ _ items)) => Ql items | _ => True end.
 
@@ -246,12 +266,15 @@ Section Main.
       + destruct b as [[]|]; try exact I. destruct H as [_ HF]. now apply Ql_of_Forall.
     - split; [|exact I]. intros k Hk sl st.
       apply abstract_macro_inv in Hk as [(p1 & e1 & m1 & dl & dr & p2 & e2 & items & bd & -> & Htr & Ei & ->)
-                                         |[(Ha & r & Hr & ->)|(-> & Hit & ->)]].
+                                         |[(Ha & r & Hr & ->)|[(-> & Hit & ->)|(x & comb & ka & -> & Hacc & Hx & ->)]]].
       + cbn [Pargs] in H. apply Forall_inv in H. cbn [Pslot] in H. destruct H as [_ HQ].
         rewrite node_text_macro_transparent by exact Htr.
         rewrite (HQ bd Ei sl st None None eq_refl). reflexivity.
       + now apply node_text_macro_symbol.
       + now apply node_text_macro_item.
+      + cbn [Pargs] in H. apply Forall_inv in H. cbn [Pslot] in H. destruct H as [Hn _].
+        rewrite (node_text_macro_accent src lt cx o sl st p e m nm ps x comb Hacc), (Hn ka Hx sl st).
+        reflexivity.
     - split; [|exact I]. intros k Hk sl st. rewrite abstract_env in Hk.
       destruct (transparent_env lt nm) eqn:Etr.
       + destruct (abs_body b) as [body|] eqn:Eb; [|discriminate Hk]. injection Hk as <-.
@@ -275,9 +298,9 @@ Section Main.
       destruct (Ql_body b body H Eb) as (p2 & e2 & items & -> & Ei & HQ).
       rewrite node_text_math, render1_math.
       destruct (o_math o).
-      + rewrite (HQ body Ei (push_eq sl) st None None eq_refl). cbv zeta. fold (render o (push_eq sl) body).
+      + rewrite (HQ body Ei (push_eq sl) st None None eq_refl). cbv zeta. fold (render acc o (push_eq sl) body).
         now rewrite indented_block_indent4.
-      + rewrite (HQ body Ei (push_eq sl) st None None eq_refl). cbv zeta. fold (render o (push_eq sl) body).
+      + rewrite (HQ body Ei (push_eq sl) st None None eq_refl). cbv zeta. fold (render acc o (push_eq sl) body).
         rewrite indented_block_nil. destruct d; [|reflexivity]. now rewrite <- !app_assoc.
       + rewrite indented_block_nil. reflexivity.
       + reflexivity.
@@ -286,12 +309,12 @@ Section Main.
 
   (** one node *)
   Theorem abstract_sound : forall n k, abs n = Some k ->
-    forall sl st, nt sl st n = (render1 o sl k, st).
+    forall sl st, nt sl st n = (render1 acc o sl k, st).
   Proof. intros n. exact (proj1 (abstract_sound_P2 n)). Qed.
 
   (** a node list (a whole document, a body) *)
   Theorem tree_level : forall items ks, absl items = Some ks ->
-    forall sl st p e, nt sl st (NList p e items) = (render o sl ks, st).
+    forall sl st p e, nt sl st (NList p e items) = (render acc o sl ks, st).
   Proof.
     intros items ks H sl st p e. rewrite node_text_list.
     exact (Ql_of_Forall items (Forall_Pslot_all P2 abstract_sound_P2 items) ks H sl st None None eq_refl).
@@ -299,6 +322,6 @@ Section Main.
 
   (** [l2t_nodes], what [nodelist_to_text] returns for the parser's result *)
   Corollary l2t_nodes_core : forall items ks p e, absl items = Some ks ->
-    l2t_nodes src lt cx o (Some (NList p e items)) = (render o (o_sls o) ks, d0).
+    l2t_nodes src lt cx o (Some (NList p e items)) = (render acc o (o_sls o) ks, d0).
   Proof. intros. unfold l2t_nodes. now apply tree_level. Qed.
 End Main.
